@@ -583,6 +583,47 @@ fn check_tables() -> Option<String> {
     None
 }
 
+// ---------- C09: `go` token routing (BOUNDED native stand-in: parse_go_command is string code) ----------
+fn hunt_go_parse(seed: u64, budget: f64, stats: bool) -> i32 {
+    std::panic::set_hook(Box::new(|_| {}));
+    let mut rng = Rng(seed.wrapping_mul(0xD1342543DE82EF95) | 1);
+    let t0 = Instant::now(); let mut n = 0u64;
+    while t0.elapsed() < Duration::from_secs_f64(budget) || n < 2000 {
+        let mut fields: Vec<(&str, i128)> = vec![];
+        for name in ["wtime", "btime", "winc", "binc", "movestogo"] {
+            if rng.below(4) != 0 {
+                let v: i128 = match rng.below(6) { 0 => 0, 1 => 1, 2 => 100, 3 => (rng.next() % 200) as i128, 4 => (rng.next() % 10_000_000) as i128, _ => -((rng.next() % 5000) as i128) };
+                let v = if name == "movestogo" { 1 + (v.abs() % 200) } else { v };
+                fields.push((name, v));
+            }
+        }
+        // random order, unknown tokens in between
+        for i in (1..fields.len()).rev() { let j = rng.below(i + 1); fields.swap(i, j); }
+        let mut cmd: Vec<String> = vec!["go".into()];
+        for (name, v) in &fields {
+            if rng.below(5) == 0 { cmd.push(["infinite", "ponder", "searchmoves", "nodes"][rng.below(4)].to_string()); }
+            cmd.push(name.to_string()); cmd.push(v.to_string());
+        }
+        if rng.below(3) == 0 { cmd.push("depth".into()); cmd.push("7".into()); }
+        let refs: Vec<&str> = cmd.iter().map(|x| x.as_str()).collect();
+        let r = std::panic::catch_unwind(|| wr::uci::verif_parse_go_command(&refs));
+        n += 1;
+        let get = |k: &str| fields.iter().find(|(a, _)| *a == k).map(|(_, v)| *v);
+        let line = cmd.join(" ");
+        let bad = match r {
+            Err(_) => Some("parse_go_command panicked on well-formed tokens".to_string()),
+            Ok(gt) => {
+                if gt.wtime != get("wtime").unwrap_or(0) || gt.btime != get("btime").unwrap_or(0) || gt.winc != get("winc").unwrap_or(0) || gt.binc != get("binc").unwrap_or(0) || gt.movestogo != get("movestogo").map(|v| v as u32) {
+                    Some(format!("fields routed wrongly: wtime {} btime {} winc {} binc {} movestogo {:?}", gt.wtime, gt.btime, gt.winc, gt.binc, gt.movestogo))
+                } else { check_slice(&gt, true).or_else(|| check_slice(&gt, false)) }
+            }
+        };
+        if let Some(d) = bad { println!("CASE {{\"kind\":\"goline\",\"line\":\"{}\",\"observed\":\"{}\",\"input_id\":\"{}\"}}", jesc(&line), jesc(&d), jesc(&line)); return 1; }
+    }
+    if stats { println!("STATS go_lines={}", n); }
+    println!("NONE {}", n); 0
+}
+
 fn get_str<'a>(json: &'a str, key: &str) -> Option<String> {
     let pat = format!("\"{}\":\"", key);
     let i = json.find(&pat)? + pat.len();
@@ -603,7 +644,7 @@ fn main() {
             match prop {
                 "C10" => { let mut rc = 0; for c in 0..=6u8 { if let Some(d) = check_draw(c) { println!("CASE {{\"kind\":\"draw\",\"count\":\"{}\",\"observed\":\"{}\",\"input_id\":\"count={}\"}}", c, jesc(&d), c); rc = 1; break; } } if rc == 0 { rc = hunt_playout(seed, budget, a[1] == "cross"); } rc }
                 "C04" => { let r = hunt_positions(prop, focus, seed, budget * 0.6, a[1] == "cross"); if r != 0 { r } else { hunt_playout(seed, budget * 0.4, a[1] == "cross") } }
-                "C09" => hunt_slice(seed, budget),
+                "C09" => { let r = hunt_slice(seed, budget * 0.5); if r != 0 { r } else { hunt_go_parse(seed, budget * 0.5, a[1] == "cross") } }
                 "C15" => { let r = hunt_point(); if r != 0 { r } else { hunt_fen(seed, budget, a[1] == "cross") } }
                 "C05" => { if let Some(d) = check_tables() { println!("CASE {{\"kind\":\"tables\",\"observed\":\"{}\",\"input_id\":\"tables\"}}", jesc(&d)); std::process::exit(1); } if a[1] == "cross" { println!("STATS table_constants=781 pairwise_distinct=true"); }
                     let r = hunt_positions(prop, focus, seed, budget * 0.7, a[1] == "cross"); if r != 0 { r } else { hunt_fen(seed, budget * 0.3, a[1] == "cross") } }
@@ -619,6 +660,11 @@ fn main() {
                     for t in get_str(js, "moves").unwrap().split_whitespace() { let m = parse_uci(&cur, t).unwrap(); cur = cur.apply(m); ms.push(m); }
                     check_playout(&start, get_str(js, "use_fen").unwrap() == "true", &ms, &h) }
                 "tables" => check_tables(),
+                "goline" => { std::panic::set_hook(Box::new(|_| {})); let line = get_str(js, "line").unwrap(); let refs: Vec<&str> = line.split(' ').collect();
+                    match std::panic::catch_unwind(|| wr::uci::verif_parse_go_command(&refs)) { Err(_) => Some("panicked".into()), Ok(gt) => {
+                        let val = |k: &str| refs.iter().position(|t| *t == k).and_then(|i| refs.get(i + 1)).and_then(|v| v.parse::<i128>().ok());
+                        if gt.wtime != val("wtime").unwrap_or(0) || gt.btime != val("btime").unwrap_or(0) || gt.winc != val("winc").unwrap_or(0) || gt.binc != val("binc").unwrap_or(0) || gt.movestogo != val("movestogo").map(|v| v as u32) { Some("fields routed wrongly".into()) }
+                        else { check_slice(&gt, true).or_else(|| check_slice(&gt, false)) } } } }
                 "draw" => check_draw(get_str(js, "count").unwrap().parse().unwrap()),
                 "go" => { let g = |k: &str| get_str(js, k).unwrap().parse::<i128>().unwrap(); let m = get_str(js, "movestogo").unwrap(); let mtg = if m == "None" { None } else { m.trim_start_matches("Some(").trim_end_matches(')').parse().ok() };
                     check_slice(&GameTime { wtime: g("wtime"), btime: g("btime"), winc: g("winc"), binc: g("binc"), movestogo: mtg }, js.contains("\"white\":true")) }
